@@ -936,7 +936,7 @@ func TestVF_C14(t *testing.T) {
 			}, "kind:"+kind)
 		})
 	}
-	recM := vfRec("C14", "C14-mutations", "every truncation (re-framed), single-byte mutation (xor 01, xor 80, =00, =ff, +1) and structural malformation (each length-prefixed vector duplicated / emptied / one byte longer / one byte shorter, with all length prefixes kept consistent) of valid encodings of every message type, and arbitrary byte strings as bodies: the library never panics; whatever it accepts is accepted with the same fields by the independent strict decoder (no inconsistent inner lengths, no trailing bytes); re-encoding reproduces canonical inputs and is a fixed point otherwise; distinct = hash(kind, body)")
+	recM := vfRec("C14", "C14-mutations", "every truncation (re-framed), single-byte mutation (xor 01, xor 80, =00, =ff, +1), two-byte field set to ffff / fffe / fffd / 8000 at every position, and structural malformation (each length-prefixed vector duplicated / emptied / one byte longer / one byte shorter, with all length prefixes kept consistent) of valid encodings of every message type, and arbitrary byte strings as bodies: the library never panics; whatever it accepts is accepted with the same fields by the independent strict decoder (no inconsistent inner lengths, no trailing bytes); re-encoding reproduces canonical inputs and is a fixed point otherwise; distinct = hash(kind, body)")
 	for _, kind := range kinds {
 		kind := kind
 		vfRapid(t, recM, "mut-"+kind, vfN(600, 20000), func(t *rapid.T) {
@@ -970,6 +970,14 @@ func TestVF_C14(t *testing.T) {
 				for _, op := range []string{"xor01", "xor80", "zero", "ff", "inc"} {
 					b := c09Mut{Op: op, Pos: pos}.apply(body)
 					try(b, fmt.Sprintf("%s at %d", op, pos))
+				}
+				// two-byte fields set to their largest values (where 2+length wraps in 16-bit arithmetic)
+				if pos+1 < len(body) {
+					for _, v := range []uint16{0xffff, 0xfffe, 0xfffd, 0x8000} {
+						b := append([]byte(nil), body...)
+						b[pos], b[pos+1] = byte(v>>8), byte(v)
+						try(b, fmt.Sprintf("u16=%04x at %d", v, pos))
+					}
 				}
 			}
 			// structural malformations of every length-prefixed vector
